@@ -300,14 +300,15 @@ def _enumerate_mincovers_unfloor(
     @rtype:
         `set` of BDD nodes
     """
-    lm = list(_pick_iter_as_bdd(cover_from_floors, fol))
+    lm = list(_pick_iter_as_bdd(
+        cover_from_floors, fol, prm.p_vars))
     n = len(lm)
     assert n >= 1, n
     mincovers_above = set()
     partials = {fol.false}
     while partials:
         partial_cover = partials.pop()
-        i = fol.count(partial_cover)
+        i = fol.count(partial_cover, prm.p_vars)
         assert i <= n, (i, n)
         if i == n:
             mincovers_above.add(partial_cover)
@@ -316,10 +317,11 @@ def _enumerate_mincovers_unfloor(
         k = i + 1
         yfloor = lm[k - 1]
         succ = _y_unfloor(yfloor, y, prm, fol)
-        for z in _pick_iter_as_bdd(succ, fol):
+        for z in _pick_iter_as_bdd(
+                succ, fol, prm.p_vars):
             assert z != fol.false
             new_cover = partial_cover | z
-            k_ = fol.count(new_cover)
+            k_ = fol.count(new_cover, prm.p_vars)
             # This assertion ensures that cardinality of
             # the cover is preserved (injective mapping).
             assert k == k_, (k, k_)
@@ -351,14 +353,15 @@ def _enumerate_mincovers_below_set_based(
     """
     # cover_from_max => y
     assert y | ~ cover_from_max == fol.true
-    lm = list(_pick_iter_as_bdd(cover_from_max, fol))
+    lm = list(_pick_iter_as_bdd(
+        cover_from_max, fol, prm.p_vars))
     n = len(lm)
     assert n >= 1, n
     mincovers_below = set()
     partials = {fol.false}
     while partials:
         partial_cover = partials.pop()
-        i = fol.count(partial_cover)
+        i = fol.count(partial_cover, prm.p_vars)
         assert i <= n, (i, n)
         if i == n:
             mincovers_below.add(partial_cover)
@@ -369,13 +372,14 @@ def _enumerate_mincovers_below_set_based(
         ymax = lm[k - 1]
         assert y | ~ ymax == fol.true
         cover = partial_cover | _lm_tail(k, lm)
-        n_ = fol.count(cover)
+        n_ = fol.count(cover, prm.p_vars)
         assert n == n_, (n, n_)
         succ = _below_and_suff(ymax, cover, x, y, prm, fol)
-        for z in _pick_iter_as_bdd(succ, fol):
+        for z in _pick_iter_as_bdd(
+                succ, fol, prm.p_vars):
             assert z != fol.false
             new_cover = partial_cover | z
-            k_ = fol.count(new_cover)
+            k_ = fol.count(new_cover, prm.p_vars)
             assert k == k_, (k, k_)
             partials.add(new_cover)
     assert mincovers_below
@@ -395,14 +399,15 @@ def _enumerate_mincovers_below(
     # cover_from_max => y
     assert y | ~ cover_from_max == fol.true
     # arrange cover in a fixed order
-    lm = list(_pick_iter_as_bdd(cover_from_max, fol))
+    lm = list(_pick_iter_as_bdd(
+        cover_from_max, fol, prm.p_vars))
     n = len(lm)
     assert n >= 1, n
     mincovers_below = set()
     stack = [fol.false]
     while stack:
         partial_cover = stack.pop()
-        i = fol.count(partial_cover)
+        i = fol.count(partial_cover, prm.p_vars)
         assert i <= n, (i, n)
         # action `Collect`
         if i == n:
@@ -416,29 +421,35 @@ def _enumerate_mincovers_below(
         assert y | ~ ymax == fol.true
         patch = _lm_tail(k, lm)
         cover = partial_cover | patch
-        assert fol.count(cover) == n, fol.count(cover)
+        n_ = fol.count(cover, prm.p_vars)
+        assert n_ == n, (n_, n)
         succ = _below_and_suff(
             ymax, cover, x, y, prm, fol)
-        for z in _pick_iter_as_bdd(succ, fol):
+        for z in _pick_iter_as_bdd(
+                succ, fol, prm.p_vars):
             assert z != fol.false
             new_cover = partial_cover | z
-            assert fol.count(new_cover) == k, fol.count(new_cover)
+            k_ = fol.count(new_cover, prm.p_vars)
+            assert k_ == k, (k_, k)
             stack.append(new_cover)
     assert mincovers_below
     return mincovers_below
 
 
-def _pick_iter_as_bdd(u, fol):
+def _pick_iter_as_bdd(u, fol, care_vars=None):
     """Return generator of BDDs from `pick_iter(u)`.
 
     @param u:
         BDD node
     @param fol:
         `fol.Context`
+    @param care_vars:
+        variables that each BDD assigns,
+        read `fol.Context.pick_iter`
     @rtype:
         generator of BDD nodes
     """
-    for d in fol.pick_iter(u):
+    for d in fol.pick_iter(u, care_vars):
         yield fol.assign_from(d)
 
 
